@@ -1,11 +1,206 @@
+import OdmlModel.Model.Dict
+import OdmlModel.Model.DictDoc
 import Driver.Util
 import Driver.Loop
 open Lean Drv
 
-namespace DrvC02
+/-
+JSON-lines handler for C02 (trusted glue, outside the proofs).
 
-/-- Stub: replaced when the model of C02 is built. -/
-def handle (_j : Json) : Except String Json := throw "model of C02 not built"
+Encoding of `Dict.J`:  null, true/false, integers, strings as themselves; arrays as arrays;
+  {"f": repr} float, {"d": iso} date, {"t": iso} time, {"dt": iso} datetime,
+  {"o": [[key, value], ...]} dictionary (ordered).
+-/
+namespace DrvC02
+open Dict
+
+partial def decJ (j : Json) : Except String J :=
+  match j with
+  | .null => pure .null
+  | .bool b => pure (.bool b)
+  | .num n => if n.exponent == 0 then pure (.int n.mantissa) else throw "non-integer number"
+  | .str s => pure (.str s)
+  | .arr xs => do pure (.arr (← xs.toList.mapM decJ))
+  | .obj _ => do
+    if let .ok t := getStr j "f" then return .float t
+    if let .ok t := getStr j "d" then return .date t
+    if let .ok t := getStr j "t" then return .time t
+    if let .ok t := getStr j "dt" then return .datetime t
+    if let .ok kvs := getArr j "o" then
+      let pairs ← kvs.toList.mapM (fun p =>
+        match p with
+        | .arr #[.str k, v] => do pure (k, ← decJ v)
+        | _ => throw "bad pair")
+      return .obj pairs
+    throw "bad J"
+
+/-- Output strings: plain when printable ASCII, otherwise `{"cp": [code points]}` (the shared loop
+    prints raw non-ASCII characters, some of which Python's `splitlines` treats as line ends). -/
+def sstr (s : String) : Json :=
+  if s.toList.all (fun c => 0x20 ≤ c.toNat && c.toNat ≤ 0x7E) then jstr s
+  else jobj [("cp", jarr (s.toList.map (fun c => jnat c.toNat)))]
+
+partial def encJ : J → Json
+  | .null => Json.null
+  | .bool b => Json.bool b
+  | .int i => jint i
+  | .float t => jobj [("f", sstr t)]
+  | .str s => sstr s
+  | .date s => jobj [("d", sstr s)]
+  | .time s => jobj [("t", sstr s)]
+  | .datetime s => jobj [("dt", sstr s)]
+  | .arr xs => jarr (xs.map encJ)
+  | .obj kvs => jobj [("o", jarr (kvs.map (fun kv => jarr [sstr kv.1, encJ kv.2])))]
+
+def decCard (j : Json) : Except String Card.Card :=
+  match j with
+  | .null => pure none
+  | .arr #[a, b] => do
+    let f : Json → Except String (Option Int) := fun x =>
+      match x with
+      | .null => pure none
+      | .num n => pure (some n.mantissa)
+      | _ => throw "bad bound"
+    pure (some (← f a, ← f b))
+  | _ => throw "bad card"
+
+def encCard : Card.Card → Json
+  | none => Json.null
+  | some (a, b) => jarr [optInt a, optInt b]
+
+def fieldJ (j : Json) (k : String) : Except String J := do decJ (← getVal j k)
+
+def optStr (j : Json) (k : String) : Except String (Option String) := do
+  match ← getVal j k with
+  | .null => pure none
+  | .str s => pure (some s)
+  | _ => throw s!"bad optional string {k}"
+
+def decProp (j : Json) : Except String Prp := do
+  let vals ← getArr j "values"
+  pure { id := ← getStr j "id", name := ← fieldJ j "name", values := ← vals.toList.mapM decJ,
+         unit := ← fieldJ j "unit", definition := ← fieldJ j "definition",
+         dependency := ← fieldJ j "dependency", dependencyValue := ← fieldJ j "dependency_value",
+         uncertainty := ← fieldJ j "uncertainty", reference := ← fieldJ j "reference",
+         dtype := ← optStr j "dtype", valueOrigin := ← fieldJ j "value_origin",
+         valCard := ← decCard (← getVal j "val_card") }
+
+partial def decSec (j : Json) : Except String Sec := do
+  let props ← (← getArr j "props").toList.mapM decProp
+  let secs ← (← getArr j "secs").toList.mapM decSec
+  pure (.mk (← getStr j "id") (← fieldJ j "name") (← fieldJ j "type") (← fieldJ j "definition")
+    (← fieldJ j "reference") (← fieldJ j "link") (← fieldJ j "repository") (← fieldJ j "include")
+    (← decCard (← getVal j "sec_card")) (← decCard (← getVal j "prop_card")) props secs)
+
+def decDoc (j : Json) : Except String Doc := do
+  let secs ← (← getArr j "secs").toList.mapM decSec
+  pure { id := ← getStr j "id", version := ← fieldJ j "version", author := ← fieldJ j "author",
+         date := ← fieldJ j "date", repository := ← fieldJ j "repository", secs := secs }
+
+def encOptStr : Option String → Json
+  | none => Json.null
+  | some s => sstr s
+
+def encProp (p : Prp) : Json :=
+  jobj [("id", sstr p.id), ("name", encJ p.name), ("values", jarr (p.values.map encJ)),
+        ("unit", encJ p.unit), ("definition", encJ p.definition), ("dependency", encJ p.dependency),
+        ("dependency_value", encJ p.dependencyValue), ("uncertainty", encJ p.uncertainty),
+        ("reference", encJ p.reference), ("dtype", encOptStr p.dtype),
+        ("value_origin", encJ p.valueOrigin), ("val_card", encCard p.valCard)]
+
+partial def encSec : Sec → Json
+  | .mk id name type d r l rp inc sc pc props secs =>
+    jobj [("id", sstr id), ("name", encJ name), ("type", encJ type), ("definition", encJ d),
+          ("reference", encJ r), ("link", encJ l), ("repository", encJ rp), ("include", encJ inc),
+          ("sec_card", encCard sc), ("prop_card", encCard pc),
+          ("props", jarr (props.map encProp)), ("secs", jarr (secs.map encSec))]
+
+def encDoc (d : Doc) : Json :=
+  jobj [("id", sstr d.id), ("version", encJ d.version), ("author", encJ d.author),
+        ("date", encJ d.date), ("repository", encJ d.repository),
+        ("secs", jarr (d.secs.map encSec))]
+
+/-- A table `[[key, value-or-null], ...]` of a library function on strings. -/
+def strTable (j : Json) (k : String) : Except String (String → Option String) := do
+  let rows ← (getArr j k <|> pure #[])
+  let tbl ← rows.toList.mapM (fun r =>
+    match r with
+    | .arr #[.str a, .str b] => pure (a, some b)
+    | .arr #[.str a, .null] => pure (a, (none : Option String))
+    | _ => throw s!"bad row in {k}")
+  pure (fun s => (tbl.lookup s).join)
+
+def strIntTable (j : Json) (k : String) : Except String (String → Option Int) := do
+  let rows ← (getArr j k <|> pure #[])
+  let tbl ← rows.toList.mapM (fun r =>
+    match r with
+    | .arr #[.str a, .num n] => pure (a, some n.mantissa)
+    | .arr #[.str a, .null] => pure (a, (none : Option Int))
+    | _ => throw s!"bad row in {k}")
+  pure (fun s => (tbl.lookup s).join)
+
+def intStrTable (j : Json) (k : String) : Except String (Int → Option String) := do
+  let rows ← (getArr j k <|> pure #[])
+  let tbl ← rows.toList.mapM (fun r =>
+    match r with
+    | .arr #[.num n, .str b] => pure (n.mantissa, some b)
+    | .arr #[.num n, .null] => pure (n.mantissa, (none : Option String))
+    | _ => throw s!"bad row in {k}")
+  pure (fun i => (tbl.lookup i).join)
+
+def decLib (j : Json) : Except String Lib := do
+  pure { uuid := ← strTable j "uuid", pyInt := ← strIntTable j "int", pyFloat := ← strTable j "float",
+         floatOfInt := ← intStrTable j "f_of_i", intOfFloat := ← strIntTable j "i_of_f",
+         dateOfStr := ← strTable j "date", timeOfStr := ← strTable j "time",
+         datetimeOfStr := ← strTable j "datetime", timeNorm := ← strTable j "time_norm",
+         datetimeNorm := ← strTable j "datetime_norm" }
+
+def encWarn : Warn → Json
+  | .invalidAttr k => jobj [("invalid_attr", sstr k)]
+  | .propNotCreated => jstr "prop_not_created"
+  | .secNotCreated => jstr "sec_not_created"
+  | .docNotCreated => jstr "doc_not_created"
+  | .childRefused => jstr "child_refused"
+  | .badEntry => jstr "bad_entry"
+
+def encErr : Err → Json
+  | .parser => jstr "parser"
+  | .invalidVersion => jstr "invalid_version"
+  | .leak => jstr "leak"
+  | .unmodelled => jstr "unmodelled"
+
+def decMode (s : String) : Except String Mode :=
+  match s with
+  | "strict" => pure .strict
+  | "lenient" => pure .lenient
+  | _ => throw "bad mode"
+
+def handle (j : Json) : Except String Json := do
+  let op ← getStr j "op"
+  match op with
+  | "write" =>
+    let d ← decDoc (← getVal j "doc")
+    let lib ← decLib (← getVal j "lib")
+    pure (jobj [("dict", encJ (wrap (writeDoc d))), ("ok", jbool (writeOk d)),
+                ("wf", jbool (wfDoc lib d)), ("repr", jbool (dictRepr d)),
+                ("layout", jbool (layoutOK (wrap (writeDoc d))))])
+  | "read" =>
+    let lib ← decLib (← getVal j "lib")
+    let m ← decMode (← getStr j "mode")
+    let v ← decJ (← getVal j "j")
+    match readDict lib m v with
+    | .ok (d, ws) => pure (jobj [("doc", encDoc d), ("warnings", jarr (ws.map encWarn))])
+    | .error e => pure (jobj [("error", encErr e)])
+  | "layout" =>
+    let v ← decJ (← getVal j "j")
+    pure (jbool (layoutOK v))
+  | "denote" =>
+    let lib ← decLib (← getVal j "lib")
+    let v ← decJ (← getVal j "j")
+    match denote lib v with
+    | some d => pure (jobj [("doc", encDoc d)])
+    | none => pure Json.null
+  | _ => throw s!"unknown op {op}"
 
 end DrvC02
 
